@@ -13,6 +13,7 @@ ENGINES = {
     "C10": "engines.c10",
     "C11": "engines.c11",
     "C12": "engines.c12",
+    "C14": "engines.c14",
     "C13": "engines.c13",
 }
 
